@@ -12,4 +12,5 @@ git checkout -q -- . && git clean -fdq src
 git apply "$d/patch.diff"
 c=$(cargo test --offline 2>&1 | grep -E "^test result" | head -1)
 git checkout -q -- . && git clean -fdq src
+find /tmp -maxdepth 1 -name ".tmp*" -mmin +2 -exec rm -rf {} + 2>/dev/null
 echo "$d | demo on original: $a | demo with patch: $b | suite with patch: $c"
